@@ -145,7 +145,8 @@ func scriptSig(s *script) string {
 	if s.Tail == "honest" {
 		p = append(p, "capability-"+s.Caps)
 	} else {
-		p = append(p, "capability-"+capsOffer(s.Caps), "then-"+s.Tail)
+		// in a signature the ambiguous form counts as what the client makes of it: not offered
+		p = append(p, "capability-"+yn(capsOffer(s.Caps) == "offered", "offered", "not-offered"), "then-"+s.Tail)
 	}
 	return strings.Join(p, "+")
 }
@@ -320,7 +321,9 @@ func readBlock(br *bufio.Reader) ([]string, bool) {
 	}
 }
 
-var garbage = append([]byte{0xff, 0xfe, 0x00, 0x99}, bytes.Repeat([]byte{0xa5, 0x5a, 0x00, 0xff}, 15)...)
+// garbage: neither a status line, nor a TLS record, nor a multiplexer frame; it ends with an empty
+// line so that a reader of header blocks is not left waiting for the end of the line
+var garbage = append(append([]byte{0xff, 0xfe, 0x00, 0x99}, bytes.Repeat([]byte{0xa5, 0x5a, 0x00, 0xff}, 15)...), "\r\n\r\n"...)
 
 func statusText(code int) string {
 	if t := http.StatusText(code); t != "" {
@@ -717,7 +720,7 @@ func runB(rec *vcommon.Rec, c *caseDesc) {
 		if clear {
 			rec.Violation(sig+":secure-required:payload-sent-in-clear", c, obs)
 		}
-		if served && !tlsDone {
+		if served && !tlsDone && !clear {
 			rec.Violation(sig+":secure-required:session-served-without-tls", c, obs)
 		}
 	} else {
@@ -735,7 +738,7 @@ func runB(rec *vcommon.Rec, c *caseDesc) {
 			rec.Stat("B:plaintext_allowed(nothing offered, nothing required)", 1)
 		}
 	}
-	if cliHeld && cliSecure && !tlsDone {
+	if cliHeld && cliSecure && !tlsDone && !clear {
 		rec.Violation(sig+":client-reports-secure-without-tls", c, obs)
 	}
 }
